@@ -60,3 +60,34 @@ func zzC16_answer() {
 	vAssert(werr == nil && len(w.streams) == 1 && w.streams[0] == req.MessageStream(), "answer is written to the request's stream")
 	vReach("C16_answer")
 }
+
+// zzC16_retry: the answer goes to the request's stream on every attempt, also when the transport
+// reports temporary errors after accepting part of it and the caller asked for retries.
+func zzC16_retry() {
+	d := vAbstractDict()
+	req := &Message{
+		Header:     &Header{Version: 1, MessageLength: 20, CommandFlags: 0x80 | vU8("flags"), CommandCode: vU32("cmd") & 0xffffff, ApplicationID: vU32("app"), HopByHopID: vU32("hbh"), EndToEndID: vU32("e2e")},
+		dictionary: d,
+		stream:     uint(vU64("stream")),
+	}
+	vAssume(req.stream != zzNoStream)
+	a := req.Answer(vU32("rc"))
+	want, serr := a.Serialize()
+	vAssume(serr == nil)
+	retries := vLen("retries", 0, vParam("R", 2))
+	sw := &zzFaultyStreamWriter{}
+	var err error
+	if zzFlag("explicitStream") {
+		_, err = a.WriteToStreamWithRetry(sw, a.MessageStream(), uint(retries))
+	} else {
+		_, err = a.WriteToWithRetry(sw, uint(retries))
+	}
+	vAssert(len(sw.streams) >= 1, "the answer is written")
+	for _, s := range sw.streams {
+		vAssert(s == req.stream, "every attempt, retries included, goes to the stream the request arrived on")
+	}
+	if err == nil {
+		zzBytesEq(sw.got, want, "the whole answer reached that stream")
+	}
+	vReach("C16_retry")
+}
